@@ -78,6 +78,9 @@ func Unmet(n *Node, k Kind, st *State) bool {
 	case KVURL:
 		return !urlPartsMatch(n, st)
 	case KVQS:
+		if Malformed(st.Query) {
+			return true // the query string cannot be parsed: the parameter cannot be verified
+		}
 		vs, ok := st.QueryParams()[n.Attr("name")]
 		if !ok {
 			return true
@@ -378,7 +381,11 @@ func HalfMeet(rng *rand.Rand, v *Node, m *Msg) {
 // GenTraffic draws exchange number i for verifier tree t: filter conditions
 // steered at random, a random subset of the verifiers met. The request token
 // goes into the query string.
-func GenTraffic(rng *rand.Rand, t *Node, i int) *Msg {
+func GenTraffic(rng *rand.Rand, t *Node, i int) *Msg { return GenTrafficBias(rng, t, i, 0) }
+
+// GenTrafficBias is GenTraffic with missBias percent of the verifiers left
+// unmet outright (long histories that pile up failures).
+func GenTrafficBias(rng *rand.Rand, t *Node, i int, missBias int) *Msg {
 	m := RandMsg(rng)
 	m.Query = "t=" + ReqTok(i)
 	if rng.Intn(3) == 0 {
@@ -400,8 +407,23 @@ func GenTraffic(rng *rand.Rand, t *Node, i int) *Msg {
 			*m = *w
 		}
 	}
+	// a share of the exchanges carries a query string that net/url cannot parse completely
+	// (the offending pair has a name nobody looks at); a querystring verifier cannot be met
+	// by such a request, so the generator does not try to (whether a parameter that did parse
+	// would count is not something the statement decides)
+	malformed := rng.Intn(10) == 0
+	if malformed {
+		m.Query += "&" + MalformedPairs[rng.Intn(len(MalformedPairs))]
+	}
 	for _, v := range Verifiers(t) {
-		switch rng.Intn(4) {
+		x := rng.Intn(4)
+		if missBias > 0 && rng.Intn(100) < missBias {
+			x = 3
+		}
+		if malformed && v.Kind == KVQS && x < 2 {
+			x = 2
+		}
+		switch x {
 		case 0, 1:
 			Meet(v, m)
 		case 2:
@@ -467,6 +489,8 @@ func FailPath(n *Node, k Kind, st *State) string {
 	case KVQS:
 		vs, ok := st.QueryParams()[n.Attr("name")]
 		switch {
+		case Malformed(st.Query):
+			return "query-malformed"
 		case !ok:
 			return "key-missing"
 		case n.Attr("value") == "" || contains(vs, n.Attr("value")):
